@@ -112,7 +112,9 @@ impl BuildOptimiser {
         let kt_ratio = match (self.kt_ratio, self.kt_finish) {
             // A ratio above one would make the factor, and with it the temperature, negative.
             // Cooling by more than everything is cooling to zero.
-            (Some(ratio), _) => f64::max(0., 1. - ratio),
+            // The factor stays finite, as a temperature of zero multiplied by an infinite factor
+            // is not a number, and no longer zero.
+            (Some(ratio), _) => f64::max(0., 1. - ratio).min(f64::MAX),
             // A temperature of zero has nothing to cool towards, the ratio of the temperatures
             // is not a number which would otherwise make the temperature not a number.
             // The temperature is reduced once every inner loop, so the number of reductions
